@@ -934,8 +934,19 @@ static Outcome run_c08(const Case &c0) {
     if (op.k == "hold") p.hold = true;
   for (auto &op : c)
     if (op.k == "connfail") p.connect_kind = (!op.a.empty() && (op.a[0] & 1)) ? CB_FAIL_NOW : CB_ASYNC_FAIL;
+  // over TLS: the same hostile peer, which of course does not speak TLS at all (the simulated descriptor is no use to the TLS library either):
+  // the handshake fails, and the request has to end like any other -- one callback, nothing leaked, nothing touched after release
+  bool tls = false;
+  for (auto &op : c)
+    if (op.k == "tls") tls = true;
+  shim_http_tls(tls ? "www.example.com" : nullptr);
+  if (tls) {
+    x.cls.insert("https_request (handshake fails)");
+    p.want_fd = -1;  // the TLS library does its own read()/write(): the descriptor number must not be one that really exists in this process
+  }
   Got g;
   run_request(b.req, p, g);
+  shim_http_tls(nullptr);
   if (!x.failed && g.callbacks && !g.is_null) {
     char m[300];
     if (g.status < 100 || g.status > 599) {
@@ -989,6 +1000,7 @@ static rc::Gen<Case> gen_c08(int tier) {
       if (*range<int>(0, 1)) c.push_back(Op("cancel", {0}));
     }
     if (*range<int>(0, 2) == 0) c.push_back(Op("hold"));
+    if (*range<int>(0, 24) == 0) c.push_back(Op("tls"));
     return c;
   });
 }
